@@ -65,6 +65,8 @@ Next ==
           /\ Snapshot(n, S))
     \/ \E a \in Addr : rstate[a] = "open" /\ ReplicaRestart(a)
     \/ ("oob" \in Ops /\ \E k \in {"Write", "Read"} : OobIO(k))
+    \/ ("oob" \in Ops /\ RegisterQuorum)
+    \/ ("resize" \in Ops /\ \E F \in SUBSET Members : Cardinality(F) <= 1 /\ ResizeVol(F))
 
 Spec == MCInit2 /\ [][Next]_vars
 
